@@ -309,7 +309,7 @@ func (g *gsDouble) Request(ctx context.Context, p peer.ID, root ipld.Link, selec
 	r.nextOut++
 	r.ridTok[id] = tok
 	r.ridReal[tok] = id
-	o := &outReq{responses: make(chan graphsync.ResponseProgress), errs: make(chan error, 1)}
+	o := &outReq{responses: make(chan graphsync.ResponseProgress), errs: make(chan error, 4)}
 	r.out[tok] = o
 	r.mu.Unlock()
 	cmd := gsCmd{Kind: "GRequest", To: tokOfPeer(p), Msg: dtMsgOf(exts)}
@@ -338,7 +338,10 @@ func (g *gsDouble) Request(ctx context.Context, p peer.ID, root ipld.Link, selec
 	return o.responses, o.errs
 }
 
-func (g *gsDouble) finish(tok uint64, err error) {
+func (g *gsDouble) finish(tok uint64, err error) { g.finishAfter(tok, nil, err) }
+
+// finishAfter ends a request whose error channel first carried the non-terminal error pre
+func (g *gsDouble) finishAfter(tok uint64, pre error, err error) {
 	r := g.r
 	r.mu.Lock()
 	o, ok := r.out[tok]
@@ -351,6 +354,9 @@ func (g *gsDouble) finish(tok uint64, err error) {
 		r.pendingDone++
 	}
 	r.mu.Unlock()
+	if pre != nil {
+		o.errs <- pre
+	}
 	if err != nil {
 		o.errs <- err
 	}
@@ -487,6 +493,7 @@ type tStep struct {
 	OnWire   bool
 	Status   int // 0 full 1 cancelled 2 other
 	Done     int // 0 ok 1 client cancelled 2 responder cancelled 3 error
+	PreErr   bool // the request reported a non-terminal error (a block the remote misses) before it ended
 	Oracle   []hAns
 }
 
@@ -535,7 +542,11 @@ func (s tStep) inputCoq() string {
 	case "grecverror":
 		return "GNetRecvError " + coqN(uint64(s.P))
 	case "gdone":
-		return fmt.Sprintf("GRequestDone %s %s", coqN(s.Rid), []string{"DOk", "DClientCancelled", "DResponderCancelled", "DError"}[s.Done])
+		d := s.Done
+		if s.PreErr && d == 0 {
+			d = 3 // the last error decides: a request that ends after a non-terminal error and nothing else has failed
+		}
+		return fmt.Sprintf("GRequestDone %s %s", coqN(s.Rid), []string{"DOk", "DClientCancelled", "DResponderCancelled", "DError"}[d])
 	}
 	return "?"
 }
@@ -701,7 +712,11 @@ func (r *trRig) exec(s tStep) tObs {
 			case 3:
 				err = errors.New("failed")
 			}
-			r.gs.finish(s.Rid, err)
+			var pre error
+			if s.PreErr {
+				pre = graphsync.RemoteMissingBlockErr{Link: cidlink.Link{Cid: cidOf(1)}}
+			}
+			r.gs.finishAfter(s.Rid, pre, err)
 		}
 	}()
 	select {
